@@ -284,3 +284,13 @@ Theorem mesh_recursion_partial :
     (forall q sq, In (q, sq) (transform_meshes T Tinv sb sw sh db dw dh off mpe) ->
                   sq = dst_quad_to_src T sb sw sh db dw dh off q).
 Proof. exact transform_meshes_sound. Qed.
+
+(* Georeference of the answer (FORMAT=image/tiff: ModelTiepointTag / ModelPixelScaleTag): for every request and every
+   extent configured for its SRS (services.wms.bbox_srs; the request may be cut down to it and only a part rendered)
+   the tags describe the REQUESTED rectangle: tie point + (i, j) * pixel scale is the ground position of pixel (i, j). *)
+Theorem answer_georeference :
+  forall b0 b1 b2 b3 w h ext i j, (0 < w)%Z -> (0 < h)%Z ->
+    let '(_, (tie, scale)) := wms_map_answer (b0, b1, b2, b3) w h ext in
+    qpt_eq (fst tie + inject_Z i * fst scale, snd tie - inject_Z j * snd scale)
+           (info_coord (b0, b1, b2, b3) w h (i, j)).
+Proof. exact answer_georef_is_request. Qed.
